@@ -20,7 +20,7 @@ from pathlib import Path
 
 sys.path.insert(0, str(Path(__file__).parent))
 
-from hunt1 import GW_IP, GW_PORT, automatic_connect  # noqa: E402
+from r10_hunt1 import GW_IP, GW_PORT, automatic_connect  # noqa: E402
 
 from xknx.knxip import (  # noqa: E402
     HPAI,
